@@ -321,6 +321,22 @@ func c15One(r *ev.Rec) func(c15Case) ev.Verdict {
 			}
 		}
 
+		// --- the same, the caller having laid SQN || AMF out in the token buffer itself: the SQN is concealed and the
+		// MAC written in place (sqn = autn[0:6], amf = autn[6:8]) - the function reads its inputs before it writes
+		{
+			autn, gik, gck, gak, gres := make([]byte, 16), make([]byte, 16), make([]byte, 16), make([]byte, 6), make([]byte, 8)
+			copy(autn[0:6], sqnNet[:])
+			copy(autn[6:8], amf[:])
+			rl := uint(8)
+			milenage.MilenageGenerate(append([]byte{}, opc[:]...), autn[6:8], append([]byte{}, k[:]...), autn[0:6], append([]byte{}, rnd[:]...), autn, gik, gck, gak, gres, &rl)
+			if rl != 8 || !bytes.Equal(autn, wantAutn[:]) {
+				return fail("generate-in-place:autn", "MilenageGenerate with sqn = autn[0:6], amf = autn[6:8]: AUTN %x (res_len %d), want (SQN^AK)||AMF||f1 = %x", autn, rl, wantAutn)
+			}
+			if !bytes.Equal(gik, ref.IK[:]) || !bytes.Equal(gck, ref.CK[:]) || !bytes.Equal(gak, ref.AK[:]) || !bytes.Equal(gres, ref.Res[:]) {
+				return fail("generate-in-place:keys", "MilenageGenerate (in place): IK/CK/AK/RES differ from f4/f3/f5/f2")
+			}
+		}
+
 		// --- checking: valid token and every corruption
 		wantAuts := refsec.AUTS(k, opc, rnd, sqnUE)
 		check := func(what string, autn [16]byte) *ev.Verdict {
